@@ -150,13 +150,18 @@ def run_mustcall(ctx):
         if not res.anchor(b is not None, fid):
             continue
         gates = {c.bb for c in b.calls if c.callee in alts or c.path in alts}
+        for a in alts:
+            if a.startswith("field:"):
+                # a block that reads the named field (of any base) also counts as passing the check
+                from ..model import places_read
+                gates |= {bb for bb, pl, _ in places_read(b) if any(e["k"] == "field" and e.get("name") == a[6:] for e in pl["p"])}
         if not gates:
             res.bad(k, "%s no longer calls %s (%s)" % (fid, " / ".join(alts), row[0] if row else ""), b.where())
             continue
         if len(row) > 1 and row[1] == "calls":
             res.ok(k, b.where(), "calls it (presence obligation): " + row[0])
             continue
-        succs = success_blocks(b) or b.return_blocks()
+        succs = b.return_blocks() if (len(row) > 1 and row[1] == "all-returns") else (success_blocks(b) or b.return_blocks())
         # a gate call that fails leaves through `?`: success must be unreachable when gate blocks are removed
         reach = b.reachable(0, avoid=gates)
         leaks = [s for s in succs if s in reach]
